@@ -31,7 +31,7 @@ for i in $(seq 1 $P); do
   mkdir -p "$WORK/c$i" "$WORK/a$i"
   cp corpus/$TARGET/* "$WORK/c$i/" 2>/dev/null
   S=$(( (SEED * 1000003 + i * 7919) % 2147483647 + 1 ))
-  "$BIN" "$WORK/c$i" -artifact_prefix="$WORK/a$i/" -runs=$RUNS -seed=$S -len_control=0 -max_len=512 -timeout=20 -rss_limit_mb=4096 -print_final_stats=1 >"$LOG/p$i.log" 2>&1 &
+  "$BIN" "$WORK/c$i" -artifact_prefix="$WORK/a$i/" -runs=$RUNS -seed=$S -len_control=0 -max_len=512 -timeout=120 -rss_limit_mb=4096 -print_final_stats=1 >"$LOG/p$i.log" 2>&1 &
 done
 wait
 T1=$(date +%s)
@@ -46,7 +46,8 @@ for art in "$WORK"/a*/crash-* "$WORK"/a*/timeout-* "$WORK"/a*/oom-*; do
   [ -e "$art" ] || continue
   N_ART=$((N_ART + 1))
   case "$art" in
-    */timeout-*|*/oom-*) echo "INCONCLUSIVE: libFuzzer reported $(basename "$art") (not a violation)"; [ $rc -eq 0 ] && rc=2; continue ;;
+    */timeout-*|*/oom-*) mkdir -p "$SEQIO_VERIF_DIR/failures"; cp "$art" "$SEQIO_VERIF_DIR/failures/$ID-$TARGET-$(basename "$art")"
+       echo "INCONCLUSIVE: libFuzzer reported $(basename "$art") (not a violation); input kept as $SEQIO_VERIF_DIR/failures/$ID-$TARGET-$(basename "$art")"; [ $rc -eq 0 ] && rc=2; continue ;;
   esac
   out=$(../harness/target/release/seqio_verif decode-artifact "$TARGET" "$art" 2>&1); drc=$?
   if [ $drc -eq 1 ]; then
